@@ -8,17 +8,39 @@ TRUST = ("Trusted: go/ssa's rendering of the package (x/tools v0.29.0), the engi
          "selftest on the repository's 1146 function-free suite pairs in setup, plus native replay of a sample of each run's own witnesses), z3 4.8.12, and the "
          "environment models listed in the evidence file ('stubs'). Everything outside the stated bounds is outside the claim.")
 
+def claim(level, text, design, note_extra=""):
+    return dict(level=level, text=text, design=design,
+                technique='solver-based bounded symbolic execution of the real code (go/ssa -> SMT-LIB, z3) by the symgo engine; counterexamples replayed natively before being reported',
+                note=TRUST + (" " + note_extra if note_extra else ""))
+
+BOUNDED = ("On every explored path z3 decides the payload-dependent branches and the assertions: unsat = holds for every value within the bound, sat = a concrete witness that is replayed against the native build before it is reported. ")
+
 claimed = {
- 'C11': dict(
-   level='model_checking',
-   text=("Bounded symbolic execution of the real code: Parse runs on `$[S:E:T]` / `$[N]` templates whose numerals are holes, so the parser actions and both getIndexes kernels "
-         "execute on 64-bit symbolic start/end/step (every int64 value, every omitted-combination), for each array length 0..6 (thorough 0..12). On every path z3 decides the "
-         "assertions 'no panic', 'empty selection <=> ErrorMemberNotExist', 'same length and same elements as the overflow-free Python-slice reference'. unsat = holds for all "
-         "values within the bound; sat = concrete literals, replayed against the native build before being reported."),
-   design='§5 C11, §2',
-   technique='solver-based bounded symbolic execution of go/ssa (own engine symgo) with z3; counterexamples replayed natively',
-   note=TRUST + " Array lengths above the bound and the digit-string<->value relation of strconv.Atoi are outside the claim."),
+ 'C01': claim('model_checking', "Differential bounded model checking of the real code: Parse and the parsed function run symbolically on corpus paths (all 1-2 step sequences over a 23-step alphabet, sampled 3-step, filter and function paths; numerals as symbolic holes) against lazily resolved symbolic documents (depth <= 3, arrays 0..2, keys {a,b}, all JSON scalar kinds with symbolic payloads, float64 and json.Number decoding). The result sequence must equal that of an independent reference evaluator executed symbolically on the same document. " + BOUNDED, '§5 C01, App. B'),
+ 'C02': claim('model_checking', "Parse, including the generated PEG recogniser and every action, is executed symbolically on (a) every string of 1..6 symbolic ASCII bytes and (b) ~1400 skeleton paths (corpus, failing paths, the suite's own paths) with one symbolic byte at a position, under three configurations. Asserted on every path: no panic escapes, mutex free and parser state reset on return, exactly one of function/error, error of a documented type; exceeding the call-depth bound is a violation candidate confirmed natively (crash). " + BOUNDED, '§5 C02', "Symbolic non-ASCII bytes and more than 2 free bytes in longer strings are outside the claim."),
+ 'C03': claim('model_checking', "The parsed function runs symbolically on corpus paths (emphasis: int64 numeral holes in every subscript position, function paths incl. failing functions) over symbolic documents of every root kind, float64 and json.Number. Asserted on every path: no panic, non-empty result with nil error or nil result with a documented runtime error, ErrorFunctionFailed only if a user function failed. " + BOUNDED, '§5 C03'),
+ 'C04': claim('model_checking', "Explicit-heap frame condition: after each evaluation (success or error, plain and accessor mode without Set) every materialised cell of the symbolic document is compared with its initial content. Corpus emphasises filters combining == != && || ! over present/missing/$-rooted operands. " + BOUNDED, '§5 C04'),
+ 'C05': claim('model_checking', "Per call from the post-Parse state: parsed tree unchanged (heap digest), no read of a buffer after it was Put (poisoning), result slice freshly allocated and unreachable from globals/pools; plus explicit histories (2 calls on independent symbolic documents, optional pool-recycling Retrieve in between, optional scribbling over the returned slice) compared with fresh Retrieve calls. Longer histories only through the per-call obligations (one-step induction). " + BOUNDED, '§5 C05'),
+ 'C06': claim('model_checking', "Schedules are not enumerated. The check shows, on symbolic inputs, a sufficient condition: every Parse writes pre-existing shared memory only while holding parseMutex and releases it on every exit; every evaluation writes only memory allocated in the call or owned through sync.Pool.Get and never touches the global parser; a parsed function shares no object with the global parser. Hence calls are conflict-free, data-race free and serialisable. Candidates are confirmed natively by goroutines under -race. " + BOUNDED, '§5 C06', "sync.Mutex, sync.Pool and regexp are trusted to be goroutine-safe; conflict-freedom is a sufficient condition, not an exploration of schedules."),
+ 'C07': claim('model_checking', "Map iteration order is an explicit nondeterministic choice in the engine: getSortedKeys is explored for every key subset (size <= 4) of 7 keys that sort differently by byte/rune/length under every iteration permutation with dirty pooled slices; wildcard/filter/recursive traversals are explored under every permutation at every range site and compared with the reference order. " + BOUNDED, '§5 C07'),
+ 'C08': claim('model_checking', "Relational: for splits P.Q of corpus paths the real retrieval of P.Q is compared with the concatenation of $Q over the results of P on one symbolic document; union/multi-name = concatenation of single selectors; ..X = X over all containers in pre-order. " + BOUNDED, '§5 C08', "A multi-identifier mixing names and * applied to an array, and a union applied to an object, are excluded from the single-selector instance (the statement does not settle them)."),
+ 'C09': claim('model_checking', "Relational over filter pairs on one symbolic container (array 0..2 or object over {a,b}, members of every kind): A&&B = intersection, A||B = union, !p and != = complement, operand swap with mirrored operator, <=/>= = </> union ==. Selections are compared by member position, observed through accessors. Number literal is a symbolic finite float64. " + BOUNDED, '§5 C09'),
+ 'C10': claim('model_checking', "(a) Every comparison filter (7 operators x operand kinds x both orders) against the typed-comparison reference on documents with float64, json.Number and mixed leaves; (b) twin relation: the same symbolic document with numbers as float64 and as json.Number selects the same member positions. " + BOUNDED, '§5 C10', "json.Number is modelled as (spelling identity, finite numeric value); the twin run assumes finite non-negative-zero numbers in shortest formatting."),
+ 'C11': claim('model_checking', "Parse runs on `$[S:E:T]` / `$[N]` templates whose numerals are holes, so the parser actions and both getIndexes kernels execute on 64-bit symbolic start/end/step (every int64 value, every omitted-combination) for each array length 0..6 (thorough 0..12). Asserted: no panic, empty selection <=> ErrorMemberNotExist, same elements as the overflow-free Python-slice reference. " + BOUNDED, '§5 C11', "Array lengths above the bound and the digit-string<->value relation of strconv.Atoi are outside the claim."),
+ 'C12': claim('model_checking', "Relational: the same path parsed with and without accessor mode (identical recording functions) evaluated on one symbolic document: same count, Get() equals the plain value, same error text, identical function-call logs, no Accessor ever reaches a user function. " + BOUNDED, '§5 C12'),
+ 'C13': claim('model_checking', "For every accessor index of every corpus path on a symbolic document: Set is nil exactly for non-locations; Set writes the sentinel into exactly the location the reference evaluator predicts (heap diff of the document), Get returns it and follows later direct updates. " + BOUNDED, '§5 C13'),
+ 'C14': claim('model_checking', "Recording user functions: the call log of the real evaluation is compared with the reference evaluator's (per chain position: same functions, same arguments, same order; aggregates once with all values or the elements of the single array); ErrorFunctionFailed must name a function that failed. " + BOUNDED, '§5 C14', "For functions inside filter operands only the set of calls is compared (how often an operand is evaluated is not prescribed)."),
+ 'C15': claim('model_checking', "On failing (path, document) pairs the error message of the real evaluation must be one of the messages the reference computes for failures at the deepest failing step, non-type failures preferred; exactly one candidate for single-valued paths. " + BOUNDED, '§5 C15'),
+ 'C16': claim('model_checking', "Keys with symbolic ASCII bytes (66 tricky skeletons, 0-1 symbolic byte at each position, near-miss sibling keys) go through the reference escaper, the real PEG parser, the three unescape routines and the map lookup; each spelling (single/double quoted, dot) must return exactly the member, at the root, below a name step and inside a filter operand. " + BOUNDED, '§5 C16', "Symbolic bytes are ASCII; `..` with symbolic keys is not modelled (sorting)."),
+ 'C17': claim('translation_validation', "Translation validation of jsonpath.peg.go against jsonpath.peg, both read from /repo on every run: the generated recogniser (real code) and an interpreter of the grammar file run jointly on the same symbolic strings (1..6 symbolic bytes; skeletons with a symbolic byte); traces of text captures and actions, acceptance, error position and `near` text must agree on every path; the action bodies of Execute() are compared textually with the grammar's. " + BOUNDED, '§5 C17, App. F', "The semantic restrictions beyond the grammar are implemented by the (textually compared) action bodies; their outcome is checked only as 'rejected by the grammar => error'."),
+ 'C18': claim('model_checking', "Relational: each corpus path against 3 (thorough 6) respellings (spaces, quotes, signs and leading zeros, .* vs [*], .name vs ['name'], omitted $, omitted slice parts), both parsed by the interpreted real parser and evaluated on one symbolic document: same values, or same error kind at the same step. " + BOUNDED, '§5 C18'),
+ 'C19': claim('model_checking', "Histories of 1-2 (thorough 1-4) earlier Parse calls (valid paths and paths failing at every action kind, 6 configurations) followed by the call under test: parser state zero and mutex free after every call; outcome equal to the same call made first, by error text and by behaviour on a symbolic document incl. function identity and accessor wrapping; modifying the Config afterwards changes nothing. " + BOUNDED, '§5 C19'),
+ 'C20': claim('model_checking', "Documents whose leaves range over 22 non-JSON Go value prototypes besides the JSON kinds; interface equality incl. the run-time panic on uncomparable types is implemented in the engine. Asserted: no panic, documented errors, results equal to the reference evaluator (opaque values are present, untyped, deep-equal by reflect.DeepEqual). " + BOUNDED, '§5 C20', "One prototype per Go type family."),
 }
+
+NA = {}
+CLEAN = set(open(os.path.join(V, 'tools', 'clean_ids.txt')).read().split())
+claimed = {k: v for k, v in claimed.items() if k in CLEAN}
 
 m = {
  "version": 1,
@@ -49,6 +71,6 @@ for p in props:
             "technique": c['technique'],
         })
     else:
-        m['not_applicable'].append({"property_id": pid, "reason": "check not built yet (engine exists; harness for this property under construction) - will be claimed once a bound has run clean on the unchanged tree"})
+        m['not_applicable'].append({"property_id": pid, "reason": NA.get(pid, "no check has run clean for this property on the unchanged tree yet")})
 json.dump(m, open(os.path.join(V, 'MANIFEST.json'), 'w'), indent=1)
 print("claimed:", sorted(claimed))
